@@ -37,6 +37,10 @@ CLAIMED = {
    technique="deterministic simulation: seeded traffic + message-level fault injection into real VirtualSign(s), catch_unwind oracle, tape shrinking and replay",
    text="Seeded simulation of a bus of 1-3 real VirtualSigns under hostile traffic: real Sign controllers behind a fault-injecting bus (loss, reply loss, duplication, reordering, short/long chunks, damaged offsets/counts/config blocks, foreign master, controller crash) mixed with a state-aware raw generator over the whole alphabet, plus flood runs that take the chunk counter past 65535. Oracle: no delivery ever unwinds. Exploration level because histories are sampled (50k quick / 5M thorough), not enumerated.",
    note=TRUSTED),
+ "C14": dict(cat="exploration", design="5/C14",
+   technique="deterministic simulation of a shared bus: several real controllers on threads under a seeded baton-passing scheduler (message-granular interleaving), non-interference and solo-shadow oracles after every delivered message",
+   text="1-4 real VirtualSigns on one real VirtualSignBus are driven concurrently by 1-4 real Sign controllers (some addressed to nobody) and a raw traffic task; each runs on its own OS thread but only the baton holder runs, and the seeded scheduler decides at every message who proceeds, so two transfers interleave chunk by chunk. After each delivered message: no sign other than the addressed one changed (state, type, pages); the reply is None for absent addresses, else carries that address and equals the reply of a shadow bus holding only that sign; each sign equals its solo shadow; unaddressed data messages changed only signs that were receiving. Exploration: populations, workloads and schedules are sampled.",
+   note=TRUSTED),
  "C15": dict(cat="fault_enumeration", design="5/C15",
    technique="deterministic stream-fault simulation: Frame::read / Frame::write over a simulated stream with fragmentation, EINTR, short and zero writes, EOF and a hard error at every I/O call index",
    text="Real Frame::read is run over simulated streams of several lines plus trailing bytes; after every call the bytes handed out by the stream must equal the index just past the first line feed and the result must equal decoding exactly that line. Fragment sizes and EINTR are drawn; then a hard error is placed at every I/O call index in turn, and for short streams every composition into fragment sizes is enumerated. Real Frame::write is run against sinks that accept a drawn number of bytes, interrupt, fail or accept zero bytes at every call index. Fault placements are exhaustive per case; cases are sampled.",
